@@ -16,11 +16,15 @@ ETYPES = {"critical_path_operator": "op", "critical_path_dependency": "dep", "cr
 def gen_cp_case(rng, nranks=1):
     sync_rate = rng.choice([0.0, 0.1, 0.2, 0.3])
     event_rate = rng.choice([0.0, 0.25, 0.4])
+    focus = rng.random() < 0.15      # two host threads feeding the same streams around CUDA-event waits
+    if focus:
+        sync_rate, event_rate = 0.0, 0.4
     # a device-wide synchronisation must wait for every thread's work; the simulator schedules threads one
     # after the other, so a second launching thread is only generated when there are no blocking calls
     case = C.gen_with(rng, lambda c: C.every_rank_has_device(c) and all(has_linked_launch(ev) for ev in c["ranks"].values()), nranks=nranks, sync_rate=sync_rate, event_rate=event_rate, **({"nstreams": rng.choice([2, 2, 3])} if event_rate else {}),
                       missing_rate=rng.choice([0.0, 0.0, 0.1]), nsteps=rng.choice([0, 1, 2, 3]),
-                      zero_rate=rng.choice([0.0, 0.1, 0.2]), two_threads=(sync_rate == 0.0 and rng.random() < 0.4))
+                      zero_rate=rng.choice([0.0, 0.1, 0.2]), two_threads=(sync_rate == 0.0 and (focus or rng.random() < (0.6 if event_rate else 0.4))),
+                      **({"share_streams": 0.9, "launch_rate": 0.6, "top_ops": 4} if focus else ({"share_streams": 0.7} if event_rate and rng.random() < 0.7 else {})))
     G.add_sync_records(rng, case)
     steps = sorted({e["name"] for ev in case["ranks"].values() for e in ev if str(e.get("name", "")).startswith("ProfilerStep#")})
     r = rng.random()
@@ -82,6 +86,9 @@ def run_cp(case):
         linked = any(x[9] in LAUNCH_CALLS and x[7] > 0 and x[7] in by_idx and by_idx[x[7]][5] >= 0 for x in rows)
         if not linked:
             return ta, files, None, "degenerate: no launch call linked to a device activity after loading"
+        if not any(x[5] == -1 and x[2] > 0 for x in rows):
+            # the analysis only considers host events of positive duration: nothing is left to analyse
+            return ta, files, None, "degenerate: no host event of positive duration"
         return ta, files, None, "raises " + C.exc_name(e) + ": " + str(e)[:100] + " @ " + traceback.format_exc().splitlines()[-3].strip()[:90]
 
 
